@@ -19,7 +19,7 @@ Clauses(c) ==
      (IF c.exc \in r.excs THEN {} ELSE {"exception"})
      \cup (IF c.post = r.post THEN {} ELSE {"contents"})
      \cup (IF c.ret = r.ret THEN {} ELSE {"return"})
-     \cup (IF c.builtin = r.post THEN {} ELSE {"spec-vs-builtin-list"})
+     \cup (IF "suite" \in DOMAIN c \/ c.builtin = r.post THEN {} ELSE {"spec-vs-builtin-list"})   \* (test-suite records carry no builtin twin)
      \cup (IF (IF c.op \in {"construct", "copy"} THEN c.evs = <<>>     \* not mutations: silent
                 ELSE EventsOK(c.pre, c.evs, c.post)) THEN {} ELSE {"event-law"})
 Judge == i <= 0 \/ LET f == Clauses(Trace[i]) IN IF f = {} THEN TRUE ELSE PrintT(<<"REJECT", i, f>>)
